@@ -5,6 +5,7 @@ import Driver.Proto
 import TableauVerif.Model.Types
 import TableauVerif.Model.Protogen
 import TableauVerif.Spec.C17
+import TableauVerif.Spec.C15
 namespace Driver
 open TableauVerif TableauVerif.Model TableauVerif.Model.Types TableauVerif.Model.Protogen
 
@@ -61,6 +62,72 @@ def renderRes (r : PRes (List PField)) : String :=
   | .error .unmodelled => "unmodelled"
   | .error .fuel => "unmodelled"
 
+/-! ### reading rendered fields back (for oracles over implementation observations) -/
+
+def decLayout? : String → Option PLayout
+  | "0" => some .dflt | "1" => some .vertical | "2" => some .horizontal | "3" => some .incell | _ => none
+
+def decProp? (s : String) : Option PropV :=
+  if s == "nil" then some none else
+  ((s.splitOn ",").mapM fun (e : String) =>
+    match e.splitOn "=" with
+    | [n, v] => (do some ((← decNat? n), (← decStr? v)) : Option (Nat × Str))
+    | _ => none).map some
+
+def decTriple? (s : String) : Option (Option (Str × Str × Str)) :=
+  if s == "-" then some none else
+  match s.splitOn "," with
+  | [a, b, c] => do some (some ((← decStr? a), (← decStr? b), (← decStr? c)))
+  | _ => none
+
+def decPair? (s : String) : Option (Option (Str × Str)) :=
+  if s == "-" then some none else
+  match s.splitOn "," with
+  | [a, b] => do some (some ((← decStr? a), (← decStr? b)))
+  | _ => none
+
+/-- take characters up to (not including) the first of the stop characters -/
+def takeAtom : List Char → List Char → List Char × List Char
+  | [], acc => (acc.reverse, [])
+  | c :: cs, acc => if c == '|' || c == '{' || c == '}' || c == '[' || c == ']' then (acc.reverse, c :: cs) else takeAtom cs (c :: acc)
+
+/-- eleven atoms separated by `|` -/
+def takeAtoms : Nat → List Char → List String → Option (List String × List Char)
+  | 0, cs, acc => some (acc.reverse, cs)
+  | n + 1, cs, acc =>
+    let (a, rest) := takeAtom cs []
+    match rest with
+    | '|' :: rest' => takeAtoms n rest' (String.ofList a :: acc)
+    | _ => none
+
+partial def parseFieldsR (cs : List Char) (acc : List PField) : Option (List PField × List Char) :=
+  match cs with
+  | '{' :: rest =>
+    match takeAtoms 11 rest [] with
+    | some ([name, typ, full, pre, on, ok, lay, span, prop, me, le], '[' :: rest2) =>
+      match parseFieldsR rest2 [] with
+      | some (subs, ']' :: '}' :: rest3) =>
+        match (do
+          let f : PField := { name := ← decStr? name, typ := ← decStr? typ, fullType := ← decStr? full, predefined := ← decBool? pre,
+                               optName := ← decStr? on, optKey := ← decStr? ok, layout := ← decLayout? lay, spanInner := ← decBool? span,
+                               prop := ← decProp? prop, mapEntry := ← decTriple? me, listEntry := ← decPair? le, fields := subs }
+          some f) with
+        | some f => parseFieldsR rest3 (f :: acc)
+        | none => none
+      | _ => none
+    | _ => none
+  | _ => some (acc.reverse, cs)
+
+/-- an observation `ok <fields>` / `err` back to a result -/
+def decPGRes? (s : String) : Option (PRes (List PField)) :=
+  if s == "err" then some (.error (.err "impl")) else
+  if s == "unmodelled" then some (.error .unmodelled) else
+  if s.startsWith "ok " then
+    match parseFieldsR (s.drop 3).toString.toList [] with
+    | some (fs, []) => some (.ok fs)
+    | _ => none
+  else none
+
 def clsName : Cls → String
   | .map => "map" | .keyedList => "keyed" | .list => "list" | .struct => "struct" | .enum => "enum" | .scalar => "scalar"
   | .other => "other"
@@ -95,6 +162,20 @@ def pg (fn : String) (a : List String) : Option String := do
   | "pg.header", [pkg, infos, nested, names, types] =>
     let c : Ctx := ⟨← decStr? pkg, ← decInfos? infos, ← decBool? nested⟩
     some (renderRes (parseSheet c (Header.ofRows (← decRow? names) (← decRow? types))))
+  | "c15.append", [pkg, infos, nested, names, types, addN, addT] =>
+    let c : Ctx := ⟨← decStr? pkg, ← decInfos? infos, ← decBool? nested⟩
+    let n ← decRow? names; let t ← decRow? types; let an ← decRow? addN; let at' ← decRow? addT
+    -- the type row is padded to the name row's width before appending (columns stay aligned)
+    let t := t ++ List.replicate (n.length - t.length) []
+    some (renderRes (parseSheet c (Header.ofRows n t)) ++ " ## " ++ renderRes (parseSheet c (Header.ofRows (n ++ an) (t ++ at'))))
+  | "o.c15.append", [_, _, _, _, _, _, _, obs] =>
+    match obs.splitOn " ## " with
+    | [a, b] =>
+      match decPGRes? a, decPGRes? b with
+      | some (.ok old), some (.ok new) => some (if Spec.C15.extendsBy old new then "holds" else "FAILS")
+      | some _, some _ => some "unspec"       -- the old or the extended header is rejected: no schema to compare
+      | _, _ => none
+    | _ => none
   | "o.c17.cls", [ast, text, obs] =>
     let e ← decTExpr? ast
     let t ← decStr? text
@@ -105,6 +186,10 @@ def pg (fn : String) (a : List String) : Option String := do
   | "c17.cls", [_, text] =>
     let (cls, comps) := Spec.C17.observe (← decStr? text)
     some s!"{clsName cls} {encParts comps}"
+  | "c15.versions", _ => some "same"          -- C15: the schema is a function of the header rows; appends extend it
+  | "c15.known", _ => some "same"
+  | "o.c15.versions", args => some (if (args.getLast?.getD "").startsWith "same" then "holds" else "FAILS")
+  | "o.c15.known", args => some (if (args.getLast?.getD "").startsWith "same" then "holds" else "FAILS")
   | "c08.twin", _ => some "same"              -- C08_* + C10c: the pipeline does not see what the containers differ in
   | "c08.known", _ => some "same"
   | "o.c08.twin", args => some (if (args.getLast?.getD "").startsWith "same" then "holds" else "FAILS")
